@@ -60,14 +60,17 @@ def dynamic_clause(ctx):
     tmp = tempfile.mkdtemp(prefix='verif-c10-')
     try:
         jobs = [('wows', v) for v in battle.wows_versions()] + [('wot', '1_8_0'), ('wot', '1_10_0'), ('wowp', '1_7_5'), ('wowp', '2_1_17'), ('wowp', '2_1_20'), ('wowp', '0_3_3')]
-        for game, v in jobs:
+        # two laps: every version is parsed again after all the others were parsed in between (and in another order), so a controller or
+        # definitions object that survives from the first lap, or callbacks left registered by another version, meet this version's events
+        lap2 = list(jobs); ctx.rng.shuffle(lap2)
+        for lap, (game, v) in [(1, j) for j in jobs] + [(2, j) for j in (lap2 if ctx.tier != 'quick' else lap2[::3])]:
             label = game + '/' + v
             ext = {'wows': 'wowsreplay', 'wot': 'wotreplay', 'wowp': 'wowpreplay'}[game]
             p = os.path.join(tmp, v + '.' + ext)
             rng = random.Random(ctx.rng.randrange(10 ** 9))
             if game == 'wows': battle.write_wows(p, v, rng)
             else: battle.write_simple(p, game, v, rng)
-            ctx.case(('battle', label)); ctx.count('battle:' + game)
+            ctx.case(('battle', label, lap)); ctx.count('battle:' + game); ctx.count('lap:%d' % lap)
             try:
                 h = ReplayParser(p, strict=True).get_info()['hidden']; ok = h is not None; why = 'hidden is None'
             except Exception as ex:
@@ -77,7 +80,7 @@ def dynamic_clause(ctx):
                 for cand in ('onNewPlayerSpawnedInBattle', 'onBattleEnd'):
                     if cand in why: key = 'Avatar_' + cand
                 ctx.deviation('version-inconsistent', {'pair': [label, key]},
-                              dict(kind='battle', version=label, outcome=why, how='tools/battle.write_wows / write_simple for that version; ReplayParser(path, strict=True).get_info()'))
+                              dict(kind='battle', version=label, lap=lap, outcome=why, how='(lap 2 = parsed again after every other version had been parsed in the same process) tools/battle.write_wows / write_simple for that version; ReplayParser(path, strict=True).get_info()'))
             os.unlink(p)
     finally:
         shutil.rmtree(tmp, ignore_errors=True)
